@@ -535,3 +535,18 @@ def rule_no_global_state(rep, res, entry=None, rule="R-PURITY"):
                      msg=f"module-level object `{ev.d.get('name', ev.d.get('names'))}` is mutated ({ev.d.get('how', 'global')}): "
                          f"the result of a call depends on earlier calls in the same process")
     return n
+
+
+def rule_effect_free(rep, res, entry=None, allowed=(), rule="R-EFFECT"):
+    """a query writes no field of the estimator (transitively through self. calls)"""
+    entry = entry or res.entry
+    writes = sorted({ev.d["attr"] for ev in res.events("self_store")} - set(allowed))
+    evs = [ev for ev in res.events("self_store") if ev.d["attr"] not in allowed]
+    if evs:
+        for ev in evs[:3]:
+            rep.violated(rule, "query leaves the estimator unchanged", where=ev.loc, construct=ev.text(), entry=entry,
+                         config=res.config, msg=f"a query stores into self.{ev.d['attr']}: later answers depend on the history of queries")
+    else:
+        rep.holds(rule, "query leaves the estimator unchanged", where=res.fn.loc(), construct=f"write set of {res.fn.name}",
+                  entry=entry, config=res.config, msg="write set = ∅")
+    return writes
